@@ -22,6 +22,9 @@ def run(ctx, rep):
     rep.rule("R14.3", "a thread that loses the try-lock sleeps on the condition (with the remaining time), not on the channel")
     rep.rule("R14.5", "the reply can be routed the moment it arrives: the requester is registered before its request is transmitted (= R08.4)")
     K.share(ctx, rep, "c08", lambda o: o.rule == "R08.4", "R14.5", floor=2)
+    rep.rule("R14.6", "a reply that arrives in time is accepted by the result object: its own notion of 'expired' follows the live "
+                      "deadline and the ready flag (= R15.1, R15.4)")
+    K.share(ctx, rep, "c15", lambda o: o.rule == "R15.1" or (o.rule == "R15.4" and "expired" in o.key), "R14.6", floor=3)
     rep.assume("the actual latency is not decided, only the ordering that causes the stall")
 
     from .c13 import blocking_lock_escape
